@@ -233,8 +233,18 @@ static hwloc_topology_t load_topo(const char *spec) {
   hwloc_topology_t t;
   if (hwloc_topology_init(&t) < 0) return NULL;
   hwloc_topology_set_all_types_filter(t, HWLOC_TYPE_FILTER_KEEP_ALL);
-  int err = spec[0] == 's' ? hwloc_topology_set_synthetic(t, (char *) raw) : hwloc_topology_set_xml(t, (char *) raw);
+  /* 'g' specs: "<synthetic description>|<cpuset>,<cpuset>,..." = the synthetic topology after inserting one Group per cpuset, in that
+   * order (levels of a topology modified after load: Group depths are renumbered by every insertion) */
+  char *bar = spec[0] == 'g' ? strchr((char *) raw, '|') : NULL;
+  if (bar) *bar++ = 0;
+  int err = (spec[0] == 's' || spec[0] == 'g') ? hwloc_topology_set_synthetic(t, (char *) raw) : hwloc_topology_set_xml(t, (char *) raw);
   if (err < 0 || hwloc_topology_load(t) < 0) { hwloc_topology_destroy(t); return NULL; }
+  for (char *c = bar; c && *c; ) {
+    char *e = strchr(c, ','); if (e) *e++ = 0;
+    hwloc_obj_t g = hwloc_topology_alloc_group_object(t);
+    if (g) { g->cpuset = hwloc_bitmap_alloc(); hwloc_bitmap_sscanf(g->cpuset, c); hwloc_topology_insert_group_object(t, g); }
+    c = e;
+  }
   cur_topo = t; snprintf(cur_spec, sizeof cur_spec, "%s", spec);
   return t;
 }
@@ -536,7 +546,14 @@ static void gen_topology(const char *spec, unsigned budget) {
       unsigned long flags = rnd_flags();
       fprintf(fops, "lvl %s %d %u %lu ", spec, depth, n, flags); put_od(fops, &first); fputc('\n', fops); nemitted++;
       stat_hit(li < nl ? "lvl_normal" : "lvl_special");
-    } else stat_hit(li < nl ? "lvl_hetero_normal_SKIPPED" : "lvl_hetero_special_skipped");
+    } else if (li < nl && !(hwloc_obj_type_is_cache((hwloc_obj_type_t) first.type) && !getenv("VERIF_C11_INCLUDE_F11"))) {
+      /* a NORMAL level whose objects differ in what the printer reads: the property says they print the same text, so the op is
+       * emitted with the first object and the C side answers "L diff" (only cache levels mixing cache types, known finding F11,
+       * stay out) */
+      unsigned long flags = rnd_flags();
+      fprintf(fops, "lvl %s %d %u %lu ", spec, depth, n, flags); put_od(fops, &first); fputc('\n', fops); nemitted++;
+      stat_hit("lvl_hetero_normal_emitted");
+    } else stat_hit(li < nl ? "lvl_hetero_cache_level_F11_skipped" : "lvl_hetero_special_skipped");
     unsigned per = budget / (unsigned) (nl + 6) + 1;
     for (unsigned k = 0; k < per && k < n; k++) {
       hwloc_obj_t o = hwloc_get_obj_by_depth(t, depth, n <= per ? k : rng_below(n));
@@ -616,6 +633,20 @@ static void gen_random(unsigned long nops, unsigned part) {
   char spec[1100];
   put_spec(spec, sizeof spec, 's', synth[part % (sizeof synth / sizeof *synth)]);
   gen_topology(spec, 150);
+  /* topologies modified after load: nested Groups inserted in random order (several Group levels, later Groups joining an
+   * existing level at any position) */
+  for (unsigned gt = 0; gt < 3; gt++) {
+    static const char *bases[] = { "pu:16", "pack:2 core:4 pu:2", "numa:2 pu:8", "pack:4 pu:4" };
+    char rawspec[400]; size_t n = (size_t) snprintf(rawspec, sizeof rawspec, "%s|", bases[rng_below(4)]);
+    unsigned ng = 3 + rng_below(5);
+    for (unsigned k = 0; k < ng && n + 16 < sizeof rawspec; k++) {
+      unsigned len = 2u << rng_below(3), a = rng_below(16 / len) * len;      /* aligned ranges of 2, 4 or 8 PUs among 16 */
+      n += (size_t) snprintf(rawspec + n, sizeof rawspec - n, "%s0x%x", k ? "," : "", ((1u << len) - 1) << a);
+    }
+    put_spec(spec, sizeof spec, 'g', rawspec);
+    gen_topology(spec, 60);
+    stat_hit("topo_with_inserted_groups");
+  }
   const char *dir = getenv("VERIF_XMLDIR");
   if (dir) {
     struct dirent **nl; int n = scandir(dir, &nl, NULL, alphasort);
